@@ -1673,7 +1673,11 @@ func (w *world) storm() {
 				d := decodeMsg(encodeMsg((f*5+k)%14, 0, 0, 0, k%4, (k/4)%2))
 				dig := d.digest()
 				key := members[(f+k)%len(members)]
-				w.obsvC <- &gossipv1.SignedObservation{Addr: simAddrs[key].Bytes(), Hash: dig, Signature: signWith(key, dig), TxHash: dig, MessageId: "storm"}
+				select {
+				case w.obsvC <- &gossipv1.SignedObservation{Addr: simAddrs[key].Bytes(), Hash: dig, Signature: signWith(key, dig), TxHash: dig, MessageId: "storm"}:
+				case <-w.runDone: // the Run loop is gone (it panicked): nobody will ever read the queue
+					return
+				}
 				time.Sleep(time.Duration(500+100*f) * time.Millisecond)
 			}
 		}(f)
@@ -1779,6 +1783,11 @@ func (h procHarness) execOnce(p *simkit.Program) (*simkit.Result, *world) {
 		}
 		if raceBuild && w.loop && !w.dead && w.cur != nil && len(w.cur.keys) > 0 {
 			w.storm()
+			if w.panicked != nil {
+				res.Violations = append(res.Violations, *w.panicked)
+				w.log.Add("PANIC %s", w.panicked.Key)
+				w.log.Cut("panic during the storm")
+			}
 		}
 		res.SimNs = int64(time.Since(w.start))
 		w.stopProcessor()
